@@ -40,16 +40,24 @@ func (kgraph *KVGraph) DeleteGraph(graph string) error {
 	kgraph.kv.Delete(graphKey)
 
 	eprefix := EdgeListPrefix(graph)
-	kgraph.kv.DeletePrefix(eprefix)
+	if err := kgraph.kv.DeletePrefix(eprefix); err != nil {
+		return err
+	}
 
 	vprefix := VertexListPrefix(graph)
-	kgraph.kv.DeletePrefix(vprefix)
+	if err := kgraph.kv.DeletePrefix(vprefix); err != nil {
+		return err
+	}
 
 	sprefix := SrcEdgeListPrefix(graph)
-	kgraph.kv.DeletePrefix(sprefix)
+	if err := kgraph.kv.DeletePrefix(sprefix); err != nil {
+		return err
+	}
 
 	dprefix := DstEdgeListPrefix(graph)
-	kgraph.kv.DeletePrefix(dprefix)
+	if err := kgraph.kv.DeletePrefix(dprefix); err != nil {
+		return err
+	}
 
 	kgraph.deleteGraphIndex(graph)
 
